@@ -88,6 +88,9 @@ func Atom(info *types.Info, e ast.Expr, branch bool) CondAtom {
 type GuardSpec struct {
 	Name  string
 	Match func(info *types.Info, a CondAtom) bool
+	// Sticky guards state a fact about an event ("call X succeeded") rather than about the
+	// current value of a variable; they survive re-assignment of the variables in the atom.
+	Sticky bool
 }
 
 // Guards is a reusable hook set: it turns matched atoms into must-facts "g:<Name>" and kills
@@ -113,6 +116,9 @@ func (g *Guards) Cond(e ast.Expr, branch bool, st *State) {
 	for _, s := range g.Specs {
 		if s.Match(g.Info, a) {
 			st.Set("g:" + s.Name)
+			if s.Sticky {
+				continue
+			}
 			for _, x := range []ast.Expr{a.X, a.Y} {
 				if x == nil {
 					continue
